@@ -1662,6 +1662,8 @@ fn shrink_source(text: &str, kind: &str) -> String {
 struct SrcGen {
     rng: Rng,
     kinds: Hist,
+    /// write expression template arguments / sizeof operands of every form (`Foo<(n > 4 ? 1 : 2)> v;`, `g<(a, b)>(x)`)
+    rich_targs: bool,
 }
 
 impl SrcGen {
@@ -1671,6 +1673,17 @@ impl SrcGen {
     fn ty(&mut self) -> String {
         let base = *self.rng.pick(&["float", "uint", "int", "float4", "float3x3", "S", "bool"]);
         let mut t = match self.rng.below(12) {
+            0 if self.rich_targs && self.rng.chance(1, 2) => {
+                self.kinds.add("type-with-expression-argument");
+                // always behind a keyword modifier: a statement that starts `Foo<(y)> v[…]` is also an expression
+                // (`Foo < (y) > v[…]`), which the parser answers as ambiguous — not what this stream is after
+                let m = *self.rng.pick(&["const", "static", "precise", "static const"]);
+                return match self.rng.below(3) {
+                    0 => format!("{} Foo<({})>", m, self.targ_expr()),
+                    1 => format!("{} Foo<({}), float>", m, self.targ_expr()),
+                    _ => format!("{} Foo<vector<float, ({})>, ({})>", m, self.targ_expr(), self.targ_expr()),
+                };
+            }
             0 => format!("vector<{}, {}>", *self.rng.pick(&["float", "uint"]), 2 + self.rng.below(3)),
             1 => format!("matrix<float, {}, {}>", 2 + self.rng.below(3), 2 + self.rng.below(3)),
             2 => "T<S, 4>".to_string(),
@@ -1700,6 +1713,14 @@ impl SrcGen {
                 _ => self.name().to_string(),
             };
         }
+        if self.rich_targs && self.rng.chance(1, 10) {
+            self.kinds.add("expression-argument");
+            return match self.rng.below(3) {
+                0 => format!("g<({})>({})", self.targ_expr(), self.name()),
+                1 => format!("sizeof(({}))", self.targ_expr()),
+                _ => format!("g<float, ({})>()", self.targ_expr()),
+            };
+        }
         match self.rng.below(14) {
             0 => format!("{} + {}", self.expr(d - 1), self.expr(d - 1)),
             1 => format!("{} * ({} - {})", self.expr(d - 1), self.expr(d - 1), self.expr(d - 1)),
@@ -1715,6 +1736,27 @@ impl SrcGen {
             11 => format!("{} >> {}", self.expr(d - 1), self.expr(d - 1)),
             12 => format!("{} == {}", self.expr(d - 1), self.expr(d - 1)),
             _ => format!("({}, {})", self.expr(d - 1), self.expr(d - 1)),
+        }
+    }
+    /// the inside of a parenthesised template argument / sizeof operand: conditionals, relational and shift operators, comma,
+    /// assignment — whatever the formatter has to keep in parentheses there — over ordinary expressions
+    fn targ_expr(&mut self) -> String {
+        let a = self.expr(1);
+        let b = self.expr(1);
+        let c = self.expr(1);
+        match self.rng.below(12) {
+            0 => format!("{} > {} ? {} : {}", a, b, c, self.name()),
+            1 => format!("{} ? {} >> {} : {}", a, b, c, self.name()),
+            2 => format!("{} ? {} : {} >= {}", a, b, c, self.name()),
+            3 => format!("{} = {} ? {} > 1 : {}", self.name(), a, b, c),
+            4 => format!("{}, {}", a, b),
+            5 => format!("{} ? ({}, {}) : {}", a, b, c, self.name()),
+            6 => format!("{} > {}", a, b),
+            7 => format!("{} >>= {}", self.name(), a),
+            8 => format!("{} < {}", a, b),
+            9 => format!("{} >= {} && {} << {}", a, b, c, self.name()),
+            10 => format!("{} ? {} : {}", a, b, c),
+            _ => self.expr(2),
         }
     }
     fn init(&mut self, d: u32) -> String {
@@ -1957,6 +1999,37 @@ impl SrcGen {
     }
 }
 
+/// the shape of the known misreading `a < b … > (c)`: the tree has a `<` and a `>` operator, none of them inside an
+/// expression-or-type position, and its text has a lone `>` directly in front of `(`
+fn lt_gt_paren_shape(t: &SExp, text: &str) -> bool {
+    fn eot_has_angle(t: &SExp, inside: bool) -> bool {
+        match t {
+            SExp::Atom(a) => inside && (a.contains("Less") || a.contains("Greater") || a.contains("Shift")),
+            SExp::List(l) => {
+                let here = inside || matches!(t.head(), Some("E") | Some("B") | Some("T"));
+                l.iter().any(|x| eot_has_angle(x, here))
+            }
+        }
+    }
+    let s = t.show();
+    if !(s.contains("(bin LessThan") && s.contains("(bin GreaterThan")) || eot_has_angle(t, false) {
+        return false;
+    }
+    let b: Vec<char> = text.chars().collect();
+    for i in 0..b.len() {
+        if b[i] == '>' && (i == 0 || (b[i - 1] != '>' && b[i - 1] != '-')) {
+            let mut j = i + 1;
+            while j < b.len() && b[j] == ' ' {
+                j += 1;
+            }
+            if j < b.len() && b[j] == '(' {
+                return true;
+            }
+        }
+    }
+    false
+}
+
 fn run_request(line: &str, out: &mut Out, hist: &mut Stats) {
     let f: Vec<&str> = line.split('\t').collect();
     match f.as_slice() {
@@ -1981,10 +2054,15 @@ fn run_request(line: &str, out: &mut Out, hist: &mut Stats) {
                 let mo = run_tree(mc, &mt);
                 let invents = !has_eot(&mt.show())
                     && mo.obs.split(" ==> ").nth(1).map(|r| has_eot(r)).unwrap_or(false);
+                // … or is rejected (`a < a & a > (Foo<a>)a`: the would-be argument list `(Foo<a>` does not parse): the minimal
+                // tree still needs a `<` operator and a `>` operator printed directly in front of a `(`, and neither stands
+                // in an expression-or-type position (there the formatter answers for them: not this class)
+                let lt_gt_paren = lt_gt_paren_shape(&mt, mo.obs.split(" ==> ").next().unwrap_or(""));
                 o.oracle = format!(
-                    "{}{} min={}",
+                    "{}{}{} min={}",
                     o.oracle,
                     if invents { " reread-invents-template-args" } else { "" },
+                    if lt_gt_paren { " lt-gt-paren" } else { "" },
                     key
                 );
             }
@@ -2817,6 +2895,7 @@ pub fn run(args: &Args, out: &mut Out) {
     let mut sg = SrcGen {
         rng: g.rng.fork(),
         kinds: Hist::default(),
+        rich_targs: true,
     };
     let mut st = Stats::default();
     for _ in 0..(if thorough { 20000 } else { 1500 }) {
@@ -2829,6 +2908,7 @@ pub fn run(args: &Args, out: &mut Out) {
     let mut sg2 = SrcGen {
         rng: g.rng.fork(),
         kinds: Hist::default(),
+        rich_targs: true,
     };
     let mut st5 = Stats::default();
     let want = if thorough { 40000 } else { 3000 };
